@@ -70,7 +70,7 @@ def as_int(v):
 class Gen:
     def __init__(self, rng, features=None, nparams=None, max_funs=4, depth=3):
         self.rng = rng
-        self.features = features if features is not None else {"defun", "inline", "const", "macro", "let", "let*", "assign", "lambda", "rest", "at", "nested", "strings"}
+        self.features = features if features is not None else {"defun", "inline", "const", "macro", "let", "let*", "assign", "lambda", "rest", "at", "nested", "strings", "qconst"}
         self.counter = 0
         self.funs = []       # dict(name, kind, params(pattern), ptypes(flat list of (name,type)), body, rtype)
         self.consts = []     # (name, kind, expr/value)
@@ -89,7 +89,18 @@ class Gen:
         names = []
         for _ in range(n):
             r = self.rng.random()
-            if allow_nested and "nested" in self.features and r < 0.12:
+            if allow_nested and "nested" in self.features and r < 0.06:
+                # two levels: ((A B) C D) / (P (Q R)) / ((A . B) C)
+                a, b, c, d = self.fresh("N"), self.fresh("N"), self.fresh("N"), self.fresh("N")
+                shape = self.rng.choice(["headlist", "taillist", "both"])
+                if shape == "headlist":
+                    items.append(("p", [("p", [("n", a, "I"), ("n", b, "I")], None), ("n", c, "I"), ("n", d, "I")], None))
+                elif shape == "taillist":
+                    items.append(("p", [("n", a, "I"), ("p", [("n", b, "I"), ("n", c, "I")], None), ("n", d, "I")], None))
+                else:
+                    items.append(("p", [("p", [("n", a, "I"), ("n", b, "I")], None), ("p", [("n", c, "I"), ("n", d, "I")], None)], None))
+                names += [(a, "I"), (b, "I"), (c, "I"), (d, "I")]
+            elif allow_nested and "nested" in self.features and r < 0.12:
                 a, b = self.fresh("N"), self.fresh("N")
                 items.append(("p", [("n", a, "I"), ("n", b, "I")], None))
                 names += [(a, "I"), (b, "I")]
@@ -165,9 +176,27 @@ class Gen:
             return ("op", "not", [self.cond(env, depth - 1)]) if depth > 0 else ("int", 1)
         return self.expr_i(env, depth)
 
+    def quoted_const(self):
+        """a quoted data constant: nested lists whose heads look like operators / paths"""
+        rng = self.rng
+
+        def item(d):
+            r = rng.random()
+            if d == 0 or r < 0.3:
+                return rng.choice([0, 1, 2, 3, 4, 5, 6, 7, 8, 9, 16, 100, 500, 600, -1, 255, 65535])
+            if r < 0.6:
+                # looks like a one-operand call: (op n) / (op (op n)) / (q . n)
+                k = rng.choice([1, 2, 3, 4, 5, 6, 7, 8, 9, 16])
+                inner = item(d - 1)
+                return (k, (inner, ())) if rng.random() < 0.8 else (k, inner)
+            return pylist([item(d - 1) for _ in range(rng.randint(1, 3))], () if rng.random() < 0.85 else item(0))
+        return pylist([item(2) for _ in range(rng.randint(1, 4))])
+
     def expr_l(self, env, depth):
         r = self.rng.random()
         lvars = [n for n, t in env if t == "L"]
+        if "qconst" in self.features and r < 0.12:
+            return ("q", self.quoted_const())
         if lvars and r < 0.25:
             return ("var", self.rng.choice(lvars))
         if r < 0.7 or depth <= 0:
@@ -202,24 +231,37 @@ class Gen:
             args += extra
         elif "rest" in self.features and len(args) >= 2 and self.rng.random() < 0.25:
             k = self.rng.randint(1, len(args) - 1)
-            rest = ("list", args[k:])
+            kinds = [x for x in ("let", "let*") if x in self.features]
+            if kinds and self.rng.random() < 0.4 and all(p[0] == "n" and p[2] == "I" for p in pat[1][k:]):
+                # the tail is a binding form that yields the remaining arguments
+                rest = self.letform(self.rng.choice(kinds), env, depth, body_type=len(args) - k)
+            else:
+                rest = ("list", args[k:])
             args = args[:k]
         return ("call", f["name"], args, rest)
 
-    def letform(self, kind, env, depth):
+    def letform(self, kind, env, depth, body_type="I"):
         n = self.rng.randint(1, 3)
         binds = []
         env2 = list(env)
+        ivars = [x for x, t in env if t == "I"]
         for _ in range(n):
-            name = self.fresh("V")
+            # sometimes rebind (shadow) a name that is already in scope
+            if ivars and self.rng.random() < 0.3 and not kind.startswith("assign"):
+                name = self.rng.choice(ivars)
+                if name in [b[0] for b in binds]:
+                    name = self.fresh("V")
+            else:
+                name = self.fresh("V")
             scope = env2 if kind != "let" else env
             binds.append((name, self.expr_i(scope, depth)))
-            env2 = env2 + [(name, "I")]
+            env2 = [(x, t) for x, t in env2 if x != name] + [(name, "I")]
+        mk = (lambda: self.expr_i(env2, depth)) if body_type == "I" else (lambda: ("list", [self.expr_i(env2, depth) for _ in range(body_type)]))
         if kind.startswith("assign") and n > 1 and self.rng.random() < 0.5:
             # assign sorts its bindings by dependency: present them in reverse order
             binds = list(reversed(binds))
-            return ("let", kind, binds, self.expr_i(env2, depth), True)
-        return ("let", kind, binds, self.expr_i(env2, depth), False)
+            return ("let", kind, binds, mk(), True)
+        return ("let", kind, binds, mk(), False)
 
     def lam(self, env, depth):
         ivars = [n for n, t in env if t == "I"]
@@ -260,7 +302,13 @@ class Gen:
             body = self.expr_i(names, self.depth - 1)
             self.funs = saved
             self.funs.append({"name": name, "kind": kind, "params": pat, "names": names, "body": body, "rtype": "I"})
-        body = self.expr_i(mainnames, self.depth) if rng.random() < 0.7 else ("list", [self.expr_i(mainnames, self.depth - 1) for _ in range(rng.randint(1, 3))])
+        rb = rng.random()
+        if rb < 0.6:
+            body = self.expr_i(mainnames, self.depth)
+        elif rb < 0.8:
+            body = ("list", [self.expr_i(mainnames, self.depth - 1) for _ in range(rng.randint(1, 3))])
+        else:
+            body = ("cons", self.expr_i(mainnames, self.depth - 1), self.expr_l(mainnames, self.depth))
         return {"params": mainpat, "names": mainnames, "funs": self.funs, "consts": self.consts, "macros": self.macros, "body": body}
 
 
@@ -697,12 +745,41 @@ def main_has_if(prog):
     return any(s[0] == "if" for _, s in subexprs(prog["body"]))
 
 
+def _has_q_nil_pair(v):
+    st = [v]
+    while st:
+        x = st.pop()
+        if isinstance(x, tuple) and x != ():
+            if x[0] == 1 and x[1] in ((), 0, b""):
+                return True
+            st.append(x[0])
+            st.append(x[1])
+    return False
+
+
+def closed_body_with_quote_nil(prog):
+    """a body (main or function) without any variable reference that contains a quoted constant with a (1 . nil) pair"""
+    for _, _, root in _walk_exprs(prog):
+        if expr_vars(root):
+            continue
+        for _, s in subexprs(root):
+            if s[0] == "q" and _has_q_nil_pair(s[1]):
+                return True
+    return False
+
+
+def inline_with_at(prog):
+    return any(f["kind"] == "inline" and pat_has_at(f["params"]) for f in prog["funs"])
+
+
 def known_class(prog, dialect, opt):
     """id of the open known-finding class a (program, dialect, optimise) build falls into, or None"""
     if dialect == "strict21" and opt:
         return "D10-strict21-optimized"
     if dialect == "cl22" and (main_has_if(prog) or any(f["kind"] == "inline" for f in prog["funs"])):
         return "D18-cl22-identifier-leak"
-    if dialect != "classic" and at_with_let(prog):
+    if dialect != "classic" and (at_with_let(prog) or inline_with_at(prog)):
         return "D19-at-capture-with-let"
+    if dialect in ("cl23", "cl23.1", "cl24") and closed_body_with_quote_nil(prog):
+        return "D20-quoted-constant-nulled"
     return None
